@@ -931,7 +931,7 @@ Section StoreFifo.
       repeat split; auto.
       + simpl in Hl. lia.
       + apply Forall_app; split; auto. repeat constructor.
-    - simpl. repeat split; auto.
+    - simpl. repeat split; auto; try constructor; lia.
   Qed.
 End StoreFifo.
 
@@ -976,7 +976,7 @@ Section PriorityStoreProps.
                           exists b, bag_run [] tr = Some b /\ Permutation b c)) with (c0 := []) (h := h); auto.
     - simpl. intros t c tr0 id p c' n _ (Hs & Hl & b & Hb & Hp) Hd.
       destruct (Nat.ltb_spec (length c) cap); inversion Hd; subst. repeat split.
-      + apply sinsert_sorted; auto using item_le_total, item_le_trans.
+      + apply sinsert_sorted; [apply item_le_total|apply item_le_trans|auto].
       + rewrite sinsert_length. lia.
       + exists (p :: b). rewrite bag_run_app, Hb. simpl. split; auto.
         eapply perm_trans; [apply perm_skip; eauto|apply sinsert_perm].
@@ -995,7 +995,7 @@ Section PriorityStoreProps.
         rewrite E1, E2. simpl. split; auto.
         apply Permutation_cons_inv with (a := x).
         eapply perm_trans; [apply Permutation_sym; apply remove1_in; auto; apply item_eqb_spec|auto].
-    - simpl. repeat split; auto; try constructor. exists []. split; auto.
+    - simpl. split; [constructor|]. split; [lia|]. exists []. split; auto.
   Qed.
 End PriorityStoreProps.
 
@@ -1020,7 +1020,7 @@ Lemma first_match_spec : forall f l x l', first_match f l = Some (x, l') ->
 Proof.
   induction l as [|y l IH]; simpl; intros x l' H; [discriminate|].
   destruct (f y) eqn:E.
-  - inversion H; subst. exists [], l. simpl. auto.
+  - inversion H; subst. exists []. eexists. simpl. repeat split; eauto.
   - destruct (first_match f l) as [[z r]|] eqn:E2; [|discriminate]. inversion H; subst.
     destruct (IH _ _ eq_refl) as (l1 & l2 & -> & Hf & Hx & ->).
     exists (y :: l1), l2. simpl. auto.
@@ -1178,9 +1178,9 @@ Section ResourceProps.
       - split; [rewrite app_length; simpl; lia|intros; tauto].
       - rewrite map_app. simpl. apply Permutation_refl. }
     destruct k; simpl in H; try (apply Hplain; auto; discriminate).
-    specialize (Hs eq_refl). pose proof (pre_put_spec _ _ _ _ Hs H) as Hp. destruct n as [v|].
+    specialize (Hs eq_refl). pose proof (pre_put_spec Hs H) as Hp. destruct n as [v|].
     - destruct Hp as ((_ & _ & _ & _ & _) & Hc & ->). split.
-      + split; [|intros _; apply sinsert_sorted; auto using user_le_total, user_le_trans].
+      + split; [|intros _; apply sinsert_sorted; [apply user_le_total|apply user_le_trans|auto]].
         * rewrite sinsert_length. rewrite Hc, app_length in Hl. simpl in Hl. lia.
         * rewrite Hc in Hs. clear - Hs. induction (removelast c) as [|a l IH]; simpl in *; [constructor|].
           inversion Hs as [|? ? Hs' Hf]; subst. constructor; auto. apply Forall_app in Hf. tauto.
@@ -1192,7 +1192,7 @@ Section ResourceProps.
         * apply in_or_app. right. left. auto.
         * eapply perm_trans; [apply Permutation_app_comm|]. simpl. auto.
     - destruct Hp as (Hlt & ->). split.
-      + split; [rewrite sinsert_length; lia|intros _; apply sinsert_sorted; auto using user_le_total, user_le_trans].
+      + split; [rewrite sinsert_length; lia|intros _; apply sinsert_sorted; [apply user_le_total|apply user_le_trans|auto]].
       + eapply perm_trans; [|apply Permutation_map; apply sinsert_perm]. simpl.
         eapply perm_trans; [apply Permutation_app_comm|]. simpl. auto.
   Qed.
@@ -1231,13 +1231,13 @@ Section ResourceProps.
     { apply (@R_run _ _ _ _ (res_mach k cap) (@res_mach_ins_in k cap)
                (fun c tr => res_inv c /\ Permutation (holders tr) (map uid c))) with (c0 := []) (h := h); auto.
       - intros t c tr0 id p c' n _ (Hi & Hp) Hd.
-        destruct (res_put_inv _ _ _ Hi Hd) as (Hi' & Hp'). split; auto.
+        destruct (res_put_inv Hi Hd) as (Hi' & Hp'). split; auto.
         unfold holders in *. rewrite fold_left_app. simpl.
         eapply perm_trans; [|exact Hp']. simpl. destruct n as [v|]; simpl.
         + apply Permutation_app_tail. apply remove1_perm; auto. apply nat_eqb_spec.
         + apply Permutation_app_tail. auto.
       - intros t c tr0 id g c' n _ (Hi & Hp) Hd.
-        destruct (res_get_inv _ _ _ Hi Hd) as (Hi' & -> & ->). split; auto.
+        destruct (res_get_inv Hi Hd) as (Hi' & -> & ->). split; auto.
         unfold holders in *. rewrite fold_left_app. simpl. rewrite remove_user_map.
         apply remove1_perm; auto. apply nat_eqb_spec.
       - split; [split; [simpl; lia|intros; constructor]|constructor]. }
@@ -1264,6 +1264,6 @@ Section ResourceProps.
       intros (t & c & c' & [Hl Hs] & Hd). destruct k; simpl in Hd.
       + unfold res_put in Hd. destruct (length c <? cap)%nat; discriminate.
       + unfold res_put in Hd. destruct (length c <? cap)%nat; discriminate.
-      + split; auto. exists c. apply (pre_put_spec _ _ _ _ (Hs eq_refl) Hd).
+      + split; auto. exists c. apply (pre_put_spec (Hs eq_refl) Hd).
   Qed.
 End ResourceProps.
